@@ -192,12 +192,37 @@ CHECKS = {
 
 NOT_YET = "check not built yet in this round (see DESIGN.md §9 build order); no claim is made"
 
+# what the adversarial seed round added (DESIGN.md A.5); appended to the level text of the check
+ADDED = {
+ "C01": "Recorded arithmetic conditions compare against literals of both signs.",
+ "C02": "FireOrder.tla: one execute over 1..55 rules under eight salience patterns fires in descending salience, insertion order among equals.",
+ "C03": "ForwardGen.tla removes and re-adds rules between executes (8-op graph over three rules).",
+ "C04": "The grammar includes descriptions, group names containing attribute keywords, and tab / double-space / URL string literals.",
+ "C05": "The input space has newline / tab / comment tokens, descriptions, long numerals, characters whose lower case changes byte length, token replacement, three separators, and size-driven structures up to 4 KiB (layered module imports, long operator chains, nesting, many rules / actions / attributes); seed texts are validated.",
+ "C06": "Recorded histories use six rules, float-valued facts and boundary thresholds (field in halves).",
+ "C07": "FireOrder.tla: firing order of ReteUlEngine / TypedReteUlEngine for up to 55 (thorough 128) rules; activations carry condition counts.",
+ "C08": "Premise lists may name a fact twice.",
+ "C10": "Whole-key writes also go through set_nested with a one-segment path.",
+ "C11": "The persistent engine is reconfigured with set_config, queried with an attached RETE engine (with retractions there), handed a fresh copy of the asserted facts, and the facts handed back are checked; a look-alike string value is in the fact domain.",
+ "C12": "A fourth machine (WindowedStream with a per-window cap read through every aggregator) and add_event / clear on the sliding window.",
+ "C13": "The transition cover is repeated with every time quantity scaled by units just above one second and by large units; unbounded allowed lateness is in the domain.",
+ "C14": "All behaviours are replayed again with timestamps shifted beyond 2^53 and with other joins on the same streams registered, kept or unregistered.",
+ "C15": "clear is part of the concurrent mix; the linearization must also explain the quiescent read-back; 60 000 (thorough 3 000 000) further histories are screened at quiescence; extreme saliences; FireOrder.tla listing order for up to 55 rules.",
+ "C16": "The value domain has a float below machine epsilon and integer zero; the memo domain has multifield nodes and arrays differing in the sign of zero.",
+ "C18": "Multi-entry export lists of mixed item types and import graphs over four modules are in the quick tier.",
+ "C19": "One rule may carry a 250-level conjunction; half of the runs reuse one engine across two same-named, same-version knowledge bases; a dead harness process is a violation attributed to the case in flight.",
+ "C20": "Every operation sequence to depth 6 (thorough 7) over one key and four checkpoints.",
+}
+
+
 def main():
     checks = []
     for pid in ALL:
         if pid not in CHECKS:
             continue
         cat, text, ref, note, tech = CHECKS[pid]
+        if pid in ADDED:
+            text = text + " Added after the adversarial seed round: " + ADDED[pid]
         checks.append({
             "property_id": pid,
             "quick_cmd": "bin/check %s --tier quick" % pid,
